@@ -335,6 +335,10 @@ func (e *engine) corpus() {
 				for ci, cfg := range g.Configs {
 					ci, cfg := ci, cfg
 
+					if !e.plan.modeApplies(cfg, mode) {
+						continue
+					}
+
 					want := ref
 					if cfg.Diag == "trace" {
 						want = refCoarse
